@@ -469,9 +469,17 @@ func (x *Exec) assertT(c *Term, msg string) {
 		if c.op == OConst {
 			x.sol.Push()
 		}
-		res = x.refineFloatText()
-		if res == "sat" {
-			viol = x.buildViolation(msg, "assert")
+		// best effort: the unrefined model is a candidate already (native replay decides); a refined model
+		// replaces it, a refutation (unsat under true facts about strconv) removes it
+		viol = x.buildViolation(msg, "assert")
+		switch x.refineFloatText() {
+		case "sat":
+			if v2 := x.buildViolation(msg, "assert"); v2 != nil {
+				viol = v2
+			}
+		case "unsat":
+			viol = nil
+			res = "unsat"
 		}
 		if c.op == OConst {
 			x.sol.Pop(1)
